@@ -18,8 +18,9 @@ _process_auth_agent_at_openssh_dot_com_open; channel.py auth-agent-req).
    of a part must have fired.
 2. Behaviours (BFS export of every distinct final state + -simulate) are
    replayed by harness/drivers/agent.py into real SSHAgentClient objects
-   (direct UNIX connection and over a forwarded agent channel of a real
-   client/server pair) and into a real pair for the forwarding part, against
+   (direct UNIX connection; over a forwarded agent channel of a real
+   client/server pair, through open_agent_connection() and through the
+   listener's path) and into a real pair for the forwarding part, against
    an in-memory fake agent.  L1 monitors decide violations, the comparison
    with the model after every step decides divergences.
 3. Negative controls: four monkeypatched mutants of the code must be caught.
@@ -67,6 +68,10 @@ FACTIONS = ['OpenSession', 'CloseSession', 'OpenAgent', 'SrvWrite', 'SrvEnd',
 JVM = {'_JAVA_OPTIONS': '-XX:TieredStopAtLevel=1 -XX:ParallelGCThreads=2 '
                         '-XX:CICompilerCount=1'}
 CVARS = ('lbl', 'pc', 'conn', 'store', 'locked', 'c2a')
+# the client's stream pair: asyncio.open_unix_connection to the agent; the
+# server side of a real pair through open_agent_connection(); a process on
+# the server through the path of the agent listener
+TRANSPORTS = ('unix', 'fwd', 'fwdpath')
 FVARS = ('lbl', 'lsn', 'up', 'down')
 
 
@@ -310,7 +315,8 @@ def main(ctx):
         with open(ctx.replay_path) as f:
             rp = json.load(f)['replay']
         if rp['kind'] == 'misc':
-            r = dict(l1=[(c, d, 'none') for c, d in drv.misc_cases()],
+            r = dict(l1=[(c, d, 'none') for c, d in
+                         drv.misc_cases() + drv.auth_cases(tlc.WORK)],
                      divergences=[], script=['misc'])
         elif rp['kind'] == 'client':
             r = drv.replay_client(rp['labels'], transport=rp['transport'],
@@ -586,7 +592,7 @@ def main(ctx):
     init3 = ('ed', 'rsa', 'cert')
     nfixed = 0
     for name, labels in fixed_client:
-        for tr in ('unix', 'fwd'):
+        for tr in TRANSPORTS:
             r = drv.replay_client(labels, transport=tr, init_store=init3,
                                   units=2, seed=ctx.seed, workdir=tlc.WORK)
             nfixed += 1
@@ -603,7 +609,7 @@ def main(ctx):
             ctx.count(('fixed', name, form))
             rep.add('fwd', r, dict(kind='fwd', labels=labels, client_fwd=cf,
                                    server_fwd=sf, seed=ctx.seed, form=form))
-    for clause, text in drv.misc_cases():
+    for clause, text in drv.misc_cases() + drv.auth_cases(tlc.WORK):
         ctx.violation({'module': 'Agent', 'part': 'misc', 'clause': clause},
                       f'{clause} [misc] {text}', replay=dict(kind='misc'))
     ctx.count(('fixed', 'misc'))
@@ -689,7 +695,8 @@ def main(ctx):
             else scripts
         for j, (labels, _final) in enumerate(ordered[:budget_e]):
             if part == 'client':
-                run_client(labels, world, 'fwd' if j % 4 == 3 else 'unix',
+                run_client(labels, world,
+                           ('unix', 'unix', 'fwd', 'fwdpath')[j % 4],
                            ctx.seed * 31 + j, name)
             else:
                 run_fwd(labels, world, ctx.seed * 31 + j, name)
@@ -710,7 +717,7 @@ def main(ctx):
                 continue
             seen.add(key)
             if part == 'client':
-                run_client(steps, world, 'fwd' if j % 3 == 2 else 'unix',
+                run_client(steps, world, TRANSPORTS[j % 3],
                            ctx.seed * 131 + j, name)
             else:
                 run_fwd(steps, world, ctx.seed * 131 + j, name)
@@ -748,9 +755,8 @@ def main(ctx):
     ctx.require(nrep['fwd'] >= (250 if quick else 2500),
                 f'only {nrep["fwd"]} forwarding behaviours replayed')
     for oc in ('ok', 'fail', 'unk', 'dec', 'lost', 'cancel'):
-        ctx.require(outcomes.get(('unix', oc), 0) > 0 and
-                    outcomes.get(('fwd', oc), 0) > 0,
-                    f'outcome {oc} not seen in both transports: {outcomes}')
+        ctx.require(all(outcomes.get((tr, oc), 0) > 0 for tr in TRANSPORTS),
+                    f'outcome {oc} not seen in every transport: {outcomes}')
     for o in (('api', 'open'), ('path', 'open'), ('rogue', 'open'),
               ('api', 'prohibited'), ('rogue', 'disabled'),
               ('api', 'noagent')):
